@@ -152,6 +152,11 @@ func (p *PKCS7PaddingWriter) Final() error {
 	if unpadding > p.blockSize || unpadding == 0 {
 		return errors.New("非法的PKCS7填充")
 	}
+	for _, c := range b[length-unpadding:] {
+		if int(c) != unpadding {
+			return errors.New("非法的PKCS7填充")
+		}
+	}
 	_, err := p.out.Write(b[:(length - unpadding)])
 	return err
 }
